@@ -8,7 +8,7 @@ import sys
 def _c09():
 	from engines.clck import ENGINE
 	return ENGINE, dict(
-		level="exploration", runs_quick=1500, budget_quick_s=40,
+		level="exploration", runs_quick=8000, budget_quick_s=40,
 		rule="one run = one seeded plan (start frame, indication period, link set, start/stop/link "
 			"operations, per-tick handler durations, stall and wake-latency faults) executed by the real "
 			"CLCKGen thread on the virtual clock; distinct = distinct (configuration bucket, probe set, "
@@ -48,7 +48,7 @@ def _c15():
 def _c08():
 	from engines.tdma import ENGINE
 	return ENGINE, dict(
-		level="exploration", runs_quick=6000, budget_quick_s=40,
+		level="exploration", runs_quick=20000, budget_quick_s=40,
 		rule="one run = one seeded plan (ring start position, <=120/<=300 operations out of schedule, "
 			"schedule_set, frame interrupt = execute+one-shot events+advance, bare execute, bare advance, "
 			"reset, arming one of the 16 callbacks to schedule an item / a set / reset from inside execute, "
@@ -77,7 +77,7 @@ def _c08():
 def _c06():
 	from engines.sercomm import ENGINE
 	return ENGINE, dict(
-		level="exploration", runs_quick=6000, budget_quick_s=40,
+		level="exploration", runs_quick=15000, budget_quick_s=40,
 		rule="one run = one seeded plan (registered DLCI subsets per node, sendmsg/pump/noise/over-long operations "
 			"in both directions, TX-interrupt points inside sercomm_sendmsg on the target) executed by two freshly "
 			"loaded real sercomm.c instances (host build <-> target build) joined by simulated UART wires; every "
